@@ -194,7 +194,11 @@ type RunResult struct {
 	History []*Op
 	Log     []string
 	Stats   Stats
+	Extra   map[string]int // oracle-specific counters (coverage)
 }
+
+// extraReporter is implemented by checkers that export coverage counters.
+type extraReporter interface{ Extra() map[string]int }
 
 var signalOnce sync.Once
 
@@ -231,6 +235,12 @@ func RunPlan(t *testing.T, plan *Plan, tape *Tape, mk func(*Plan) Checker, keepL
 	res.Log = w.log
 	w.stats.SchedFp = w.fp
 	res.Stats = w.stats
+	if er, ok := w.chk.(extraReporter); ok && w.chk != nil {
+		res.Extra = er.Extra()
+	}
+	if res.Extra == nil {
+		res.Extra = map[string]int{}
+	}
 	return
 }
 
@@ -980,6 +990,11 @@ func (w *World) harvest() {
 			if v := w.onReply(op); v != nil {
 				w.viol = v
 				return
+			}
+			if w.plan.Knobs.Turns {
+				// no two commands of a turn-taking history execute at the same
+				// instant, so "deadline == now" never has to be decided
+				time.Sleep(time.Microsecond)
 			}
 		}
 		if !c.eof {
